@@ -70,6 +70,34 @@ CHECKS = {
 }
 
 
+# families added while the checks were strengthened against five rounds of independently seeded changes (DESIGN.md sections 2a and 6); the RULE string that each
+# check prints into its evidence file is the full and current description
+ADDED = {
+    'C01': 'Also: exchanges that cross each other with PFS, lossy and hub families, 6in4 / 4in6 tunnels.',
+    'C02': 'Also: mixed-method connections (victim PSK, peer public key only), AUTH replayed from an earlier session, CREATE_CHILD_SA in place of IKE_AUTH.',
+    'C03': 'Also: critical / unimplemented outer payloads, an outer payload spliced before SK, a sweep over 34 notification types, forgeries from other source addresses, and ONE loop turn with an authentic request and a forgery on two sockets of a multi-homed victim.',
+    'C04': 'Also: INVALID_KE_PAYLOAD retries inside IKE_SA rekeys and PFS CHILD_SA exchanges for every pair of group kinds; key pairs generated until the own MODP public value has a leading zero octet.',
+    'C05': 'Also: serialise-edit-serialise, reference-sealed messages with up to 15 extra blocks of padding, and the dump read back from the DEBUG log record.',
+    'C06': 'Also: 17 extreme well-formed shapes at 3-48 KB (thorough 64 KB), a long-lived parser process, text hostile to pattern matching, SK pathologies behind a cleartext payload, and a CPU-time bound per call with a virtual-time alarm.',
+    'C07': 'Also: one Crypto object across a message sequence, every legal amount of extra padding, cleartext payloads in front of SK, extension at the front and insertion / removal of single octets.',
+    'C08': 'Also: a zero responder SPI in every IKE_SA_INIT request emitted (repeats after COOKIE / INVALID_KE_PAYLOAD included).',
+    'C09': 'Also: a queue-aware transition relation, the retransmission monitor in the walks and in the exhaustive part, and an oracle for requests given up although nothing was lost and the peer still holds the IKE_SA.',
+    'C10': 'Also: 6in4 / 4in6 / wide-subnet tunnels, authentic requests from another source address, equal SPI values at both ends, Linux-like port ids in kernel answers, restarts with an edited configuration.',
+    'C11': 'Also: an INVALID_KE_PAYLOAD suggestion sweep over all small group numbers (IKE_SA_INIT, IKE rekey, PFS CHILD rekey), IKE rekey selections judged against the preference order as written, pairs under cookie mode.',
+    'C12': 'Also: policies whose entries have different modes (grid), crafted rekey requests with other selectors or the other mode, initiator checks on later exchanges, answers with several selectors per payload, policies that rely on defaults.',
+    'C13': 'Also: one-way partitions, a peer that restarts and comes back with a new IKE_SA, retries after the original request had been retransmitted, hundreds of exchanges on one IKE_SA (Message IDs beyond 256).',
+    'C14': 'Also: kernel answers carrying other port ids, FLUSHSA protocol octet 0 or 255.',
+    'C15': 'Also: FLUSHSA protocol semantics with stale SAs of every protocol, restarts with an edited configuration, ACQUIRE bursts while the IKE_SA is busy, offers compared with the entry as written, special protocol / port points, an ACQUIRE sharing its loop turn with other events.',
+    'C16': 'Also: EXPIRE notices that echo the installed SA with mixed-family SPI collisions, a never-quiet network, unprocessable IKE_SA_INIT requests, no INITIAL IKE_SA between loop iterations, DELETE payload lists of an independent peer.',
+    'C17': 'Also: persistent kernel refusals with a timer-service probe, failures to open the netlink socket, events that raise while a retransmission is due (validated select timeout), authentic responses with SPIs of impossible sizes, floods of acceptable IKE_SA_INIT requests between handshake steps, a never-quiet network.',
+    'C18': 'Also: requests re-using the SPI of a half-open IKE_SA, the daemon\'s own IKE_SAs before the flood, retransmission of the cookie-bearing request, AUTH verified after the cookie rounds.',
+    'C19': 'Also: objects shared between connections (YAML anchors), IPv4-mapped local addresses, a systematic single-value sweep, secrets that look like another notation, non-text connection names, a scripted resolver with multi-address host names.',
+    'C20': 'Also: texts logged for configuration dictionaries and files that cannot be loaded (the real start-up path as a subprocess), kernel error replies that echo the refused request.',
+}
+for _k, _v in ADDED.items():
+    _c = CHECKS[_k]
+    CHECKS[_k] = (_c[0], _c[1], _c[2] + ' ' + _v, _c[3], _c[4])
+
 READY = set(CHECKS)     # an entry is added to CHECKS only when its check holds on the unchanged tree
 
 
